@@ -57,75 +57,79 @@ func tapeSize(t Tape) (n int, sum uint64) {
 	return len(t.Program) + len(t.Schedule), sum
 }
 
-// candidates proposes simpler tapes, simplest first: truncations, block
-// deletions, block zeroing, value reduction. Each section is treated
-// separately so that deleting a schedule entry never shifts the meaning of a
-// program entry.
-func candidates(t Tape, round int) []Tape {
-	var out []Tape
-	edit := func(sec int, f func(s []uint64) []uint64) {
-		c := cloneTape(t)
-		if sec == 0 {
-			c.Program = f(c.Program)
-		} else {
-			c.Schedule = f(c.Schedule)
-		}
-		out = append(out, c)
+// edit is one simplification of a tape: delete, zero, halve or decrement a
+// block of one section. Sections are edited separately so that deleting a
+// schedule entry never shifts the meaning of a program entry.
+type edit struct {
+	sec, kind, at, bs int
+}
+
+const (
+	edTruncate = iota
+	edDelete
+	edZero
+	edHalve
+	edDecrement
+)
+
+func (e edit) apply(t Tape) (Tape, bool) {
+	c := cloneTape(t)
+	sp := &c.Schedule
+	if e.sec == 0 {
+		sp = &c.Program
 	}
-	for sec := 1; sec >= 0; sec-- {
-		s := t.Schedule
-		if sec == 0 {
-			s = t.Program
-		}
-		n := len(s)
-		if n == 0 {
-			continue
-		}
-		// truncation (the tail replays as zeros = simplest choices)
-		for _, keep := range []int{0, n / 4, n / 2, n * 3 / 4, n - 1} {
-			if keep < n {
-				k := keep
-				edit(sec, func(s []uint64) []uint64 { return s[:k] })
+	s := *sp
+	if e.at >= len(s) {
+		return c, false
+	}
+	end := e.at + e.bs
+	if end > len(s) {
+		end = len(s)
+	}
+	changed := false
+	switch e.kind {
+	case edTruncate:
+		*sp = s[:e.at]
+		changed = true
+	case edDelete:
+		*sp = append(s[:e.at:e.at], s[end:]...)
+		changed = true
+	case edZero:
+		for i := e.at; i < end; i++ {
+			if s[i] != 0 {
+				s[i] = 0
+				changed = true
 			}
 		}
-		// block deletion and zeroing, block size halving with the round
-		bs := n >> uint(round+1)
-		if bs < 1 {
-			bs = 1
-		}
-		for at := 0; at < n; at += bs {
-			a, b := at, at+bs
-			if b > n {
-				b = n
-			}
-			edit(sec, func(s []uint64) []uint64 { return append(s[:a:a], s[b:]...) })
-			nonzero := false
-			for _, v := range s[a:b] {
-				if v != 0 {
-					nonzero = true
-				}
-			}
-			if nonzero {
-				edit(sec, func(s []uint64) []uint64 {
-					for i := a; i < b; i++ {
-						s[i] = 0
-					}
-					return s
-				})
+	case edHalve:
+		for i := e.at; i < end; i++ {
+			if s[i] > 1 {
+				s[i] /= 2
+				changed = true
 			}
 		}
-		// value reduction
-		if bs == 1 {
-			for i, v := range s {
-				if v > 1 {
-					i, v := i, v
-					edit(sec, func(s []uint64) []uint64 { s[i] = v / 2; return s })
-					edit(sec, func(s []uint64) []uint64 { s[i] = v - 1; return s })
-				}
+	case edDecrement:
+		for i := e.at; i < end; i++ {
+			if s[i] > 0 {
+				s[i]--
+				changed = true
 			}
 		}
 	}
-	return out
+	return c, changed
+}
+
+func secLen(t Tape, sec int) int {
+	if sec == 0 {
+		return len(t.Program)
+	}
+	return len(t.Schedule)
+}
+
+func smaller(a, b Tape) bool {
+	an, as := tapeSize(a)
+	bn, bs := tapeSize(b)
+	return an < bn || (an == bn && as < bs)
 }
 
 // minimiseAndReport confirms the violation in fresh processes, shrinks the
@@ -152,61 +156,97 @@ func minimiseAndReport(bt *builtTree, prop, tier string, seed uint64, f *found) 
 		infra("nondeterministic replay: lane %s run %d reported [%s] %s but its tape does not reproduce it in three fresh processes",
 			lc.Name, f.run, class, f.viol.Detail)
 	}
-	// 2. shrink
+	// 2. shrink: sweeps over both sections with halving block sizes; after an
+	// accepted edit the sweep continues where it is (no restart).
 	t0 := time.Now()
-	budgetN, budgetT := envInt("VERIF_MIN_CANDIDATES", 2000), 90*time.Second
+	budgetN := envInt("VERIF_MIN_CANDIDATES", 30000)
+	budgetT := time.Duration(envInt("VERIF_MIN_SECONDS", 60)) * time.Second
 	tried, accepted := 0, 0
 	par := envInt("VERIF_WORKERS", 16)
 	startN, _ := tapeSize(cur)
-	for round := 0; round < 40 && tried < budgetN && time.Since(t0) < budgetT; {
-		cands := candidates(cur, round)
+	out := func() bool { return tried >= budgetN || time.Since(t0) > budgetT }
+	// try evaluates a batch of edits of cur in parallel and adopts the first
+	// (lowest index: deterministic) that reproduces the class with a smaller tape.
+	try := func(edits []edit) int {
+		type res struct {
+			ok  bool
+			eff Tape
+		}
+		rs := make([]res, len(edits))
+		var wg sync.WaitGroup
+		for i, e := range edits {
+			cand, changed := e.apply(cur)
+			if !changed {
+				continue
+			}
+			wg.Add(1)
+			tried++
+			go func(i int, cand Tape) {
+				defer wg.Done()
+				v, eff, _, _, err := execTape(bt, prop, tier, seed, lc, f.run, cand, false)
+				if err == nil && v != nil && v.Class == class {
+					rs[i] = res{true, eff}
+				}
+			}(i, cand)
+		}
+		wg.Wait()
+		for i, r := range rs {
+			if r.ok && smaller(r.eff, cur) {
+				cur = r.eff
+				accepted++
+				return i
+			}
+		}
+		return -1
+	}
+	sweep := func(sec, kind, bs int) bool {
 		progress := false
-		for at := 0; at < len(cands) && tried < budgetN && time.Since(t0) < budgetT; at += par {
-			end := at + par
-			if end > len(cands) {
-				end = len(cands)
+		for pos := 0; pos < secLen(cur, sec) && !out(); {
+			var batch []edit
+			for p := pos; p < secLen(cur, sec) && len(batch) < par; p += bs {
+				batch = append(batch, edit{sec, kind, p, bs})
 			}
-			type res struct {
-				ok  bool
-				eff Tape
-			}
-			rs := make([]res, end-at)
-			var wg sync.WaitGroup
-			for i := at; i < end; i++ {
-				wg.Add(1)
-				go func(i int) {
-					defer wg.Done()
-					v, eff, _, _, err := execTape(bt, prop, tier, seed, lc, f.run, cands[i], false)
-					if err == nil && v != nil && v.Class == class {
-						rs[i-at] = res{true, eff}
-					}
-				}(i)
-			}
-			wg.Wait()
-			tried += end - at
-			for _, r := range rs { // lowest index wins: deterministic
-				if !r.ok {
-					continue
+			if hit := try(batch); hit >= 0 {
+				progress = true
+				pos = batch[hit].at
+				if kind != edDelete {
+					pos += bs
 				}
-				cn, cs := tapeSize(cur)
-				rn, rsum := tapeSize(r.eff)
-				if rn < cn || (rn == cn && rsum < cs) {
-					cur = r.eff
-					accepted++
+			} else {
+				pos = batch[len(batch)-1].at + bs
+			}
+		}
+		return progress
+	}
+	for cycle := 0; cycle < 6 && !out(); cycle++ {
+		progress := false
+		for sec := 1; sec >= 0; sec-- {
+			n := secLen(cur, sec)
+			var tr []edit
+			for _, keep := range []int{0, n / 8, n / 4, n / 2, n * 3 / 4, n - 1} {
+				if keep >= 0 && keep < n {
+					tr = append(tr, edit{sec, edTruncate, keep, 0})
+				}
+			}
+			if len(tr) > 0 && try(tr) >= 0 {
+				progress = true
+			}
+			for bs := secLen(cur, sec) / 2; bs >= 1 && !out(); bs /= 2 {
+				if sweep(sec, edDelete, bs) {
 					progress = true
-					break
+				}
+				if sweep(sec, edZero, bs) {
+					progress = true
 				}
 			}
-			if progress {
-				break
+			for _, kind := range []int{edHalve, edDecrement} {
+				if !out() && sweep(sec, kind, 1) {
+					progress = true
+				}
 			}
 		}
 		if !progress {
-			n, _ := tapeSize(cur)
-			if n>>uint(round+1) <= 1 {
-				break // a full pass at block size 1 made no progress
-			}
-			round++
+			break
 		}
 	}
 	// 3. final replay of the minimised tape in a fresh process, with trace
